@@ -35,7 +35,9 @@ def gen_case(rng, index, tier):
     L, trashes, entries = trashworld.make(
         rng, index, n_entries=n, dates=dates, volumes=rng.choice([[], ['v1']]),
         home_own=False, xdg='unset',
-        names=['e%d%s' % (i, rng.choice(['', ' x', '.txt', 'é'])) for i in range(n)],
+        names=['e%d%s' % (i, rng.choice(['', ' x', '.txt', 'é', '.trashinfo',
+                                             '.trashinfo.bak', '.trashinfo.trashinfo']))
+               for i in range(n)],
         kinds=['file', 'tree', 'tree', 'link_dangling', 'empty', 'dir_empty'])
     case = L.desc()
     case['cmd'] = cmd
